@@ -36,7 +36,7 @@ func genC14(t *rapid.T) any {
 	c := &C14Case{}
 	if rapid.IntRange(0, 7).Draw(t, "immcase") == 0 {
 		q := rapid.SampledFrom([]string{"ASYNC", "SPIN", "SPINASYNC"}).Draw(t, "q")
-		call := rapid.SampledFrom([]string{"vf_imm(a)", "TO_UPPER(s)", "GETVAR('x')", "CONSTANT('pi')", "DATERANGE(s, s)", "TO_LOWER(s)", "TIMESTAMP()"}).Draw(t, "immfn")
+		call := rapid.SampledFrom([]string{"vf_imm(a)", "vfImmCamel(a)", "vfimmcamel(a)", "VFIMMCAMEL(a)", "VF_IMM_UPPER(a)", "vf_imm_upper(a)", "VF_IMM(a)", "TO_UPPER(s)", "to_upper(s)", "GETVAR('x')", "CONSTANT('pi')", "DATERANGE(s, s)", "TO_LOWER(s)", "TIMESTAMP()"}).Draw(t, "immfn")
 		c.Imm = q + "." + call
 		c.Rows = []any{map[string]any{"a": 1.0, "s": "x"}, map[string]any{"a": 2.0, "s": "y"}}
 		if rapid.Bool().Draw(t, "norows") {
